@@ -11,11 +11,11 @@ Record sctx := { dead : bool;        (* inside a -N function *)
 
 Definition ftrig (f : option bool) : trig :=
   {| t_filter := f; t_depth := None; t_time := None; t_size := None;
-     t_trace_on := false; t_trace_off := false; t_trace := false; t_caller := false |}.
+     t_trace_on := false; t_trace_off := false; t_trace := false; t_caller := false; t_loc := None; t_finish := false |}.
 (* option sets of this stage: -F / -N per function (table [flt]), -D gd *)
 Definition fcfg (flt : N -> option bool) (fm : bool) (gd thr ms : N) (sh : shape) : cfg :=
   {| trig_of := fun a => ftrig (flt a); fmode_in := fm; has_caller := false; gdepth := gd; threshold := thr;
-     max_stack := ms; sym_size := fun _ => 0; shp := sh |}.
+     max_stack := ms; sym_size := fun _ => 0; shp := sh; lmode_in := false |}.
 
 Definition E_ (a t d : N) : rec := {| r_time := t; r_type := ENTRY; r_depth := d; r_addr := a |}.
 Definition X_ (a t d : N) : rec := {| r_time := t; r_type := EXIT; r_depth := d; r_addr := a |}.
